@@ -198,8 +198,13 @@ var MalformedPayloads = []string{
 // BadHostURLs do not parse as URLs (missing closing bracket, bad escape, bad port, missing scheme, control character).
 var BadHostURLs = []string{"http://[::1", "%zz", "http://h:port/c", ":foo", "http://h\u007f/"}
 
-// BadHostPlaces says where the unparsable URL sits.
-var BadHostPlaces = []string{"weights", "uriSpecificProperties", "partitionDesc"}
+// BadHostPlaces says where the unparsable URL sits. Only the weights member is used: whether an announcement whose
+// weights are fine but whose uriSpecificProperties / partitionDesc hold an unparsable URL counts as malformed is not
+// stated by the property (Payload can still render those places for callers that only look for panics).
+var BadHostPlaces = []string{"weights"}
+
+// AllBadHostPlaces lists every member that can carry a host URL.
+var AllBadHostPlaces = []string{"weights", "uriSpecificProperties", "partitionDesc"}
 
 // WeightlessPayloads are well-formed announcements without any weight.
 var WeightlessPayloads = []string{
